@@ -454,3 +454,115 @@ Theorem order_tie_break k v :
 Proof.
   unfold order_of. rewrite filter_rev'. f_equal. apply sort_by_stable.
 Qed.
+
+(* ---------- C01/C16: with the built-in criteria only, whether a connected component is
+   kept does not depend on the processing order: it is kept iff it spans at least min_delta
+   and has at least min_npix pixels *)
+Lemma branch_has_leaf_edge t : is_leaf t = false -> exists w k, In (w, k) (edges t) /\ is_leaf k = true.
+Proof.
+  induction t as [i o ks IH] using tree_ind2. intros Hl.
+  destruct ks as [|k ks]; [discriminate|].
+  destruct (is_leaf k) eqn:Ek.
+  - exists (Node i o (k :: ks)), k. split; [|exact Ek].
+    rewrite edges_unfold. apply in_or_app. left. cbn [tkids map]. left. reflexivity.
+  - inversion IH as [|? ? Hk _]; subst. destruct (Hk Ek) as [w [c [Hwc Hc]]].
+    exists w, c. split; [|exact Hc]. eapply kid_edges; [|exact Hwc]. left. reflexivity.
+Qed.
+
+Lemma length_town_le_regionv t u : In u (nodes t) -> (length (town u) <= length (regionv t))%nat.
+Proof.
+  revert u. induction t as [i o ks IH] using tree_ind2. intros u Hu.
+  cbn [nodes] in Hu. cbn [regionv]. rewrite app_length. destruct Hu as [<-|Hu]; [cbn [town]; lia|].
+  apply in_flat_map in Hu. destruct Hu as [k [Hk Hu]]. rewrite Forall_forall in IH.
+  specialize (IH k Hk u Hu).
+  assert (length (regionv k) <= length (flat_map regionv ks))%nat.
+  { clear -Hk. induction ks as [|a ks IHk]; [destruct Hk|]. cbn [flat_map]. rewrite app_length.
+    destruct Hk as [->|Hk]; [lia | specialize (IHk Hk); lia]. }
+  lia.
+Qed.
+
+Section Builtin.
+  Variable adj : Z -> list Z.
+  Variables (d n den : Z).
+  Hypothesis Hden : 0 < den.
+  Variable order : list (Z * Z).
+  Hypothesis Hnd : NoDup (map fst order).
+  Hypothesis Hsorted : sorted_desc order.
+  Hypothesis Hsym : forall a b, In a (map fst order) -> In b (map fst order) -> In b (adj a) -> In a (adj b).
+
+  Let cs := [MinDelta d; MinNpix n den].
+  Let indep := indep_of cs.
+  Let R := run adj indep order.
+
+  (* the test on the whole region *)
+  Definition region_passes (r : tree) : Prop :=
+    d <= maxl (map snd (regionv r)) - minl (map snd (regionv r)) /\ n <= zlen (regionv r) * den.
+
+  Theorem builtin_kept_iff_region_passes r :
+    In r R -> (~ dropped indep r <-> region_passes r).
+  Proof.
+    intros Hr. pose proof (HJ adj indep order Hnd Hsorted Hsym) as J. fold R in J.
+    unfold dropped, region_passes.
+    destruct (is_leaf r) eqn:El.
+    - (* a parentless leaf: its own pixels are the whole region *)
+      rewrite (leaf_regionv r El).
+      assert (Hfin : indep (town r) None = true <->
+                     d <= maxl (map snd (town r)) - minl (map snd (town r)) /\ n <= zlen (town r) * den).
+      { unfold indep, cs. cbn [indep_of forallb crit_final crit_plain]. rewrite andb_true_r, andb_true_iff, !Z.leb_le.
+        unfold vmax_l, vmin_l. reflexivity. }
+      rewrite <- Hfin. split.
+      + intros H. destruct (indep (town r) None) eqn:E; [reflexivity|]. exfalso. apply H. split; reflexivity.
+      + intros H [_ E]. congruence.
+    - (* a branch: some leaf below passed the criteria when it was attached *)
+      split; [intros _ | intros _ [E _]; discriminate].
+      destruct (branch_has_leaf_edge r El) as [w [k [Hwk Hk]]].
+      assert (Hwk' : In (w, k) (fedges R)) by (apply (fedges_sub R r Hr), Hwk).
+      destruct (leaf_with_parent adj indep order Hnd Hsorted Hsym w k Hwk' Hk) as [Hlt [Hind [_ _]]].
+      destruct (edges_nodes r w k Hwk) as [Hw Hkw].
+      assert (Hkn : In k (nodes r)) by (eapply nodes_trans; [exact Hw | apply kid_nodes, Hkw]).
+      pose proof (J_own _ _ _ _ J) as Hown. rewrite Forall_forall in Hown.
+      assert (HwR : In w (fnodes R)) by (apply in_flat_map; exists r; split; assumption).
+      assert (HkR : In k (fnodes R)) by (apply in_flat_map; exists r; split; assumption).
+      destruct (Hown w HwR) as [Hwne _]. destruct (Hown k HkR) as [Hkne _].
+      unfold indep, cs in Hind. cbn [indep_of forallb crit_at crit_plain] in Hind.
+      rewrite andb_true_r, andb_true_iff, !Z.leb_le in Hind. destruct Hind as [Hd Hn].
+      (* values of the region: the leaf's peak and the pixel that created its parent *)
+      assert (Hvals : forall pv, In pv (regionv r) -> In (snd pv) (map snd (regionv r))) by (intros pv H; apply in_map, H).
+      assert (Hpk : In (vmax_l (town k)) (map snd (regionv r))).
+      { unfold vmax_l. assert (Hin : In (maxl (map snd (town k))) (map snd (town k)))
+          by (apply maxl_in; destruct (town k); [congruence | discriminate]).
+        apply in_map_iff in Hin. destruct Hin as [pv [E Hpv]]. rewrite <- E. apply in_map.
+        apply In_regionv_nodes. exists k. split; assumption. }
+      assert (Hcv : In (cval w) (map snd (regionv r))).
+      { unfold cval. destruct (town w) as [|pv l] eqn:Ew; [congruence|]. cbn [hd]. apply in_map.
+        apply In_regionv_nodes. exists w. split; [exact Hw | rewrite Ew; left; reflexivity]. }
+      split.
+      + pose proof (maxl_ge _ _ Hpk). pose proof (minl_le _ _ Hcv). lia.
+      + pose proof (length_town_le_regionv r k Hkn) as Hlen. unfold zlen in *. nia.
+  Qed.
+End Builtin.
+
+(* ---------- C16: the parentless regions do not depend on the processing order, on how ties
+   are broken, or on the criteria: they are the connected components of the kept pixels *)
+Theorem roots_order_independent adj indep1 indep2 order1 order2 :
+  NoDup (map fst order1) -> sorted_desc order1 ->
+  NoDup (map fst order2) -> sorted_desc order2 ->
+  (forall p, In p (map fst order1) <-> In p (map fst order2)) ->
+  (forall a b, In a (map fst order1) -> In b (map fst order1) -> In b (adj a) -> In a (adj b)) ->
+  forall r1 x, In r1 (run adj indep1 order1) -> In x (region r1) ->
+    exists r2, In r2 (run adj indep2 order2) /\ In x (region r2) /\
+               forall y, In y (region r1) <-> In y (region r2).
+Proof.
+  intros Hnd1 Hs1 Hnd2 Hs2 Hsame Hsym1 r1 x Hr1 Hx.
+  assert (Hsym2 : forall a b, In a (map fst order2) -> In b (map fst order2) -> In b (adj a) -> In a (adj b)).
+  { intros a b Ha Hb. apply Hsym1; apply Hsame; assumption. }
+  assert (Hx1 : In x (map fst order1)).
+  { apply (R_pixels adj indep1 order1 Hnd1 Hs1 Hsym1). apply fregion_In. exists r1. split; assumption. }
+  assert (Hx2 : In x (fregion (run adj indep2 order2))).
+  { apply (R_pixels adj indep2 order2 Hnd2 Hs2 Hsym2). apply Hsame, Hx1. }
+  apply fregion_In in Hx2. destruct Hx2 as [r2 [Hr2 Hxr2]].
+  exists r2. split; [exact Hr2|]. split; [exact Hxr2|]. intros y.
+  rewrite (root_is_component adj indep1 order1 Hnd1 Hs1 Hsym1 r1 x y Hr1 Hx).
+  rewrite (root_is_component adj indep2 order2 Hnd2 Hs2 Hsym2 r2 x y Hr2 Hxr2).
+  split; apply conn_mono; intros z Hz; apply Hsame; exact Hz.
+Qed.
